@@ -235,6 +235,10 @@ func (p *ImportProg) renderMod(m ImportMod) string {
 	for _, s := range m.Body {
 		renderImportStmt(&b, s, me)
 	}
+	// a public name bound only at the very end of the body: a star import made
+	// while this module is still being initialised (import cycle) must not see
+	// it, a later one must
+	fmt.Fprintf(&b, "tail = \"t-%s\"\n", m.Name)
 	fmt.Fprintf(&b, "log(\"done\", \"%s\")\n", me)
 	return b.String()
 }
@@ -306,12 +310,15 @@ func renderImportStmt(b *strings.Builder, s ImportStmt, me string) {
 		if s.Form == "star" {
 			// a star import must not clobber the importer's own identity
 			fmt.Fprintf(b, "log(%s, \"star-name\", __name__)\n", tag)
-			for _, n := range []string{"x", "_p", "h", "val"} {
+			for _, n := range []string{"x", "_p", "h", "val", "tail", "extra"} {
 				fmt.Fprintf(b, "try:\n    log(%s, \"star\", \"%s\", %s)\nexcept NameError:\n    log(%s, \"star\", \"%s\", \"unbound\")\n", tag, n, n, tag, n)
 			}
 		}
 	case "mut":
 		fmt.Fprintf(b, "import %s as _t\n_t.val = %d\nlog(%s, \"mut\", \"%s\", %d)\n", s.M, s.V, tag, s.M, s.V)
+		if s.V%3 == 0 {
+			fmt.Fprintf(b, "_t.extra = \"e%d\"\n", s.V)
+		}
 	case "read":
 		fmt.Fprintf(b, "try:\n    import %s as _t\n    log(%s, \"read\", \"%s\", _t.val, _t.x)\nexcept (ImportError, AttributeError) as _e:\n    log(%s, \"read\", \"%s\", exc_name(_e))\n", s.M, tag, s.M, tag, s.M)
 	case "raise":
